@@ -474,6 +474,9 @@ func h1Oracles(env *Env, c *H1Cfg, st *h1State, hr *h1Run, runIdx int, stats sim
 				}
 			}
 		}
+		if !g.Cancelled && rec.saysInterrupted() {
+			env.Violate("C05", "interrupted-without-interrupt", "run/"+c.Mode, "the run reported \"Interrupted\" although nothing cancelled it and no signal was delivered to it")
+		}
 		if g.BodiesBegunAfterReturn > 0 && !timedOut {
 			env.Violate("C05", "iteration-started-after-return", "run/"+c.Mode, "%d iterations began after Do returned", g.BodiesBegunAfterReturn)
 		}
